@@ -13,7 +13,7 @@ use super::Op;
 use crate::{
     ext::{compext as x, tasks as t},
     rng::Rng,
-    sexp::{Sexp, a, l, s, tagged},
+    sexp::{Sexp, a, l, tagged},
     conv,
 };
 use anthem::{
@@ -94,21 +94,7 @@ const CONSTRAINTS: &[&str] = &[
 ];
 
 fn ext_error(e: &ExternalEquivalenceTaskError) -> Sexp {
-    use ExternalEquivalenceTaskError as E;
-    let v = match e {
-        E::UnsupportedFormulaRepresentation => "UnsupportedFormulaRepresentation",
-        E::NonTightProgram(_) => "NonTightProgram",
-        E::ProgramContainsPrivateRecursion(_) => "ProgramContainsPrivateRecursion",
-        E::InputOutputPredicatesOverlap(_) => "InputOutputPredicatesOverlap",
-        E::InputPredicateInRuleHead(_) => "InputPredicateInRuleHead",
-        E::OutputPredicateInUserGuideAssumption(_) => "OutputPredicateInUserGuideAssumption",
-        E::OutputPredicateInSpecificationAssumption(_) => "OutputPredicateInSpecificationAssumption",
-        E::PlaceholdersWithIdenticalNamesDifferentSorts(_) => "PlaceholdersWithIdenticalNamesDifferentSorts",
-        E::AssumptionContainsNonInputSymbols(_) => "AssumptionContainsNonInputSymbols",
-        E::SpecificationContainsUnsupportedRoles(_) => "SpecificationContainsUnsupportedRoles",
-        E::ProofOutlineError(inner) => return tagged("err", vec![s("ProofOutlineError"), s(t::po_error(inner))]),
-    };
-    tagged("err", vec![s(v)])
+    t::ext_error(e)
 }
 
 fn side(rng: &mut Rng) -> String {
@@ -131,7 +117,8 @@ fn side(rng: &mut Rng) -> String {
     for _ in 0..1 + rng.below(3) {
         push(&mut s, *rng.pick(OUT_RULES));
     }
-    if rng.chance(35) {
+    // 0-3 constraints (`constraint_0`, `constraint_1`, .. in control_translate)
+    for _ in 0..rng.weighted(&[62, 24, 10, 4]) {
         push(&mut s, *rng.pick(CONSTRAINTS));
     }
     s
